@@ -9,7 +9,8 @@ call; the byte layout of the head is the parameter `Framing`).
       len       declared body length
       srv       what the server does on the FIRST attempt: 0 full response keep-alive, 1 full response with
                 Connection: close, 2 cut inside the head then close, 3 cut after `cut` body bytes then close,
-                4 stall inside the head (timeout), 5 stall after `cut` body bytes (timeout, the rest arrives later);
+                4 stall inside the head (timeout), 5 stall after `cut` body bytes (timeout, the rest arrives later),
+                6 nothing: the REQUEST cannot be written (its body stream breaks): error, connection closed, no retry;
                 every retry gets the full keep-alive response
       reqClose  the request carries Connection: close
       read      bytes the caller reads from a streamed body before CloseBodyStream
@@ -53,7 +54,7 @@ def ccAttempt (d : CcD) (tag : Nat) (isHead reqClose : Bool) (bodyLen srv cut re
     | 4 => (2, true)
     | 5 => (4 + cutN, true)
     | _ => (resp.length, false)
-  let call : Call := ⟨isHead, reqClose, d.stream, readK, 0, false⟩
+  let call : Call := ⟨isHead, reqClose, d.stream, readK, 0, false, srv == 6⟩
   let e : Event := ⟨tag, pick, call, resp, arrive, later⟩
   (step toy d.cfg d.s e).map fun s' =>
     let out := (s'.log.getLast?.map (·.out)).getD .err
@@ -63,7 +64,7 @@ def ccAttempt (d : CcD) (tag : Nat) (isHead reqClose : Bool) (bodyLen srv cut re
       decide (4 ≤ arrive)
     let reason := match out with
       | .ok _ _ => "ok"
-      | .err => if tooLarge then "toolarge" else if later && arrive < resp.length then "timeout" else "err"
+      | .err => if srv == 6 then "err" else if tooLarge then "toolarge" else if later && arrive < resp.length then "timeout" else "err"
     ({ d with s := s' }, connId, out, released, reason)
 
 /-- the retry loop of HostClient.Do: an attempt that failed with a connection error is retried for idempotent methods -/
@@ -75,7 +76,7 @@ def ccGo (tag : Nat) (isHead idem reqClose : Bool) (bodyLen srv cut readK : Nat)
     | none => none
     | some (d1, cid, out, rel, reason) =>
       let ids1 := ids ++ [cid]
-      if reason == "err" && idem && ids1.length < 5 then ccGo tag isHead idem reqClose bodyLen srv cut readK fuel d1 ids1 false
+      if reason == "err" && idem && srv != 6 && ids1.length < 5 then ccGo tag isHead idem reqClose bodyLen srv cut readK fuel d1 ids1 false
       else some (d1, ids1, out, rel, reason)
 
 def ccCall (d : CcD) (tag : Nat) (a : List UInt8) : Option (CcD × String) :=
@@ -88,6 +89,8 @@ def ccCall (d : CcD) (tag : Nat) (a : List UInt8) : Option (CcD × String) :=
       let (tagS, blen) := match out with
         | .ok hd body => ((hd.head?.map (fun (b : UInt8) => toString b.toNat)).getD "-", body.length)
         | .err => ("-", 0)
+      -- (a request whose write failed never arrives at the server: the harness sees no attempt)
+      let ids := if srv.toNat == 6 then [] else ids
       (d1, "a=" ++ ".".intercalate (ids.map toString) ++ ",res=" ++ reason ++ ",tag=" ++ tagS ++ ",blen=" ++ toString blen ++
         ",fate=" ++ (if rel then "R" else "C"))
   | _ => none
